@@ -10,7 +10,7 @@ def run(repo, res):
     from . import flagsrule
 
     res.rule("R28.3", "preprocessing keeps the samples: split_disjoint_nodes and the helpers it shares decide sample status by the NODE_IS_SAMPLE bit or ts.samples(), never by comparing the whole flags word (samples may carry further bits)")
-    flagsrule.run(repo, res, "R28.3")
+    flagsrule.run(repo, res, "R28.3", floor=2, scope=["util.preprocess_ts", "util.split_disjoint_nodes", "util._split_disjoint_nodes", "util._reorder_nodes"])
     res.rule("R28.1", "every keyword parameter of preprocess_ts is consumed (passed to the tskit call of the same name, tested in a guard, or folded into another parameter); the two sibling tables.simplify calls pass identical keyword sets that originate from the same parameters; delete_intervals is called with simplify=False; node splitting runs iff split_disjoint; delete_intervals are used as given when supplied")
     res.rule("R28.2", "derived intervals: flanks only under erase_flanks, gaps only when >= minimum_gap, intervals built from adjacent site positions; the output is sorted and built from the same tables")
     f = repo.fn("util", "preprocess_ts")
